@@ -89,6 +89,8 @@ static std::string match(const std::string& in, const char* out, size_t n) {
 
 // place: 0 = heap block of exact size (ASan redzones), 1 = ends on the last byte before a PROT_NONE page,
 // 2 = inside the arena with `slack` bytes after it, 3 = starts on the first byte after a PROT_NONE page
+static bool g_doc_mode = false;  // this case also runs the string through a partly filled write buffer
+static uint64_t g_doc_k = 0;
 typedef char* (*QuoteFn)(const char*, size_t, char*);
 struct Kernel { const char* name; QuoteFn fn; };
 static char* q_dispatch(const char* s, size_t n, char* d) { return internal::Quote(s, n, d); }
@@ -147,6 +149,29 @@ static std::string judge1(const Kernel& K, const std::string& in, int place, siz
     char* e2 = K.fn(src, len, dst);
     c.subevals++;
     if ((size_t)(e2 - dst) != n || memcmp(dst, first.data(), n) != 0) return "output depends on the bytes after the string";
+  }
+  // the same string as the last element of an array behind k small numbers, serialised into write buffers of several
+  // capacities: the reservation for the string (6n+35) is made when the buffer is already partly filled
+  if (g_doc_mode && K.fn == q_dispatch) {
+    static const size_t caps[] = {0, 64, 96, 128, 256, 298, 300, 512, 1024};
+    size_t k = (size_t)(g_doc_k % 41), cap = caps[g_doc_k / 41 % 9];
+    Document d;
+    auto& a = d.GetAllocator();
+    d.SetArray();
+    std::string want = "[";
+    for (size_t i = 0; i < k; i++) {
+      d.PushBack(Node((int64_t)(1000000000000000ll + (int64_t)i)), a);
+      want += std::to_string(1000000000000000ll + (long long)i) + ",";
+    }
+    Node sn;
+    sn.SetString(src, len);
+    d.PushBack(std::move(sn), a);
+    want += first + "]";
+    WriteBuffer wb(cap);
+    c.subevals++;
+    if (d.Serialize(wb) != kErrorNone) return "Serialize of [numbers..., string] failed";
+    if (wb.Size() != want.size() || memcmp(wb.ToString(), want.data(), want.size()) != 0)
+      return "Serialize of [" + std::to_string(k) + " numbers, string] into a buffer of capacity " + std::to_string(cap) + " differs from the expected text";
   }
   // the same through Serialize of a string node
   {
@@ -224,6 +249,10 @@ static void property(Src& s, Case& c) {
   for (unsigned char ch : in) has_esc = has_esc || ch < 0x20 || ch == '"' || ch == '\\';
   c.nt((len >= 1 && has_esc) || (len % 32 != 0 && (place == 1 || (place == 2 && slack < 64))));
   if (c.counting) c.desc(std::string(pn[place]) + " slack=" + std::to_string(slack) + " len=" + std::to_string(len) + " " + printable(in, 60));
+  g_doc_mode = s.coin(1, 4);
+  g_doc_k = g_doc_mode ? s.pick(0, 41 * 9 - 1) : 0;
+  c.note("dock", std::to_string(g_doc_mode ? (long long)g_doc_k : -1ll));
+  if (g_doc_mode) c.cls("behind-numbers-in-a-partly-filled-write-buffer");
   std::string m = judge(in, place, slack, c);
   if (!m.empty()) c.fail(m + " | in=" + printable(in, 200) + " place=" + pn[place] + " slack=" + std::to_string(slack));
 }
@@ -233,10 +262,20 @@ static void direct(const Fields& f, Case& c) {
   if (!in) c.fail("replay has no in field");
   int place = field(f, "place") ? atoi(field(f, "place")->c_str()) : -1;
   size_t slack = field(f, "slack") ? (size_t)atol(field(f, "slack")->c_str()) : 7;
+  long dock = field(f, "dock") ? atol(field(f, "dock")->c_str()) : -1;
   for (int p = 0; p < 4; p++) {
     if (place >= 0 && place != p) continue;
+    g_doc_mode = false;
     std::string m = judge(*in, p, slack, c);
     if (!m.empty()) c.fail(m + " | place=" + std::to_string(p));
+    g_doc_mode = true;
+    for (uint64_t k = 0; k < 41 * 9; k++) {
+      if (dock >= 0 && (uint64_t)dock != k) continue;
+      g_doc_k = k;
+      m = judge(*in, p, slack, c);
+      if (!m.empty()) c.fail(m + " | place=" + std::to_string(p) + " dock=" + std::to_string(k));
+    }
+    g_doc_mode = false;
   }
 }
 
